@@ -753,15 +753,15 @@ func ruleAddrCascade(c *Ctx, prefix string) {
 			if !isL2 {
 				// peer = 3rd argument of WriteTo
 				pa := call.Call.Args[len(call.Call.Args)-1]
-				pv := ex.Resolve(st, pa)
+				pv := ex.ResolveDeep(st, pa)
 				al, ok := pv.(*ssa.Alloc)
 				if !ok {
 					siteRes[in].bad = "peer is not a net.UDPAddr literal built in this function: " + ex.Canon(st, pa).S
 					siteRes[in].st = st
 					continue
 				}
-				ipE, ok1 := st.lookupStore("new@" + anm(al) + ".IP")
-				ptE, ok2 := st.lookupStore("new@" + anm(al) + ".Port")
+				ipE, ok1 := st.lookupStore("new@" + ex.vname(al) + ".IP")
+				ptE, ok2 := st.lookupStore("new@" + ex.vname(al) + ".Port")
 				if !ok1 || !ok2 {
 					siteRes[in].bad = "peer literal does not set both IP and Port"
 					siteRes[in].st = st
@@ -800,12 +800,12 @@ func ruleAddrCascade(c *Ctx, prefix string) {
 				ll, _ := histFact(st, "bool", regexp.MustCompile(`^\(net\.IP\)\.IsLinkLocalUnicast\(`+reQ(peerIP)+`\)$`))
 				pinned = or3(eqB, ll)
 			}
-			wv := ex.Resolve(st, woobV)
+			wv := ex.ResolveDeep(st, woobV)
 			got := "unknown"
 			if isNilConst(wv) {
 				got = "nil"
 			} else if al, ok := wv.(*ssa.Alloc); ok {
-				if e, ok := st.lookupStore("new@" + anm(al) + ".IfIndex"); ok {
+				if e, ok := st.lookupStore("new@" + ex.vname(al) + ".IfIndex"); ok {
 					got = e.ce.S + e.suffix
 				}
 			}
